@@ -224,3 +224,68 @@ Proof.
   intros i Hi; split; [apply gen_oneIfRight_spec | apply gen_oneIfTop_spec]; exact Hi.
 Qed.
 Print Assumptions C02_source_tie.
+
+From Coq Require Import Permutation.
+From Texel Require Import Snap.Model Snap.ProofsBasics Snap.ProofsLevelThms Snap.ProofsNoCollapse.
+
+(** ** the polygon clause: when no two parts of the polygon collapse onto a common pixel, the returned polygon is
+    the ring-by-ring concatenation of the routed edges.
+
+    [chains g hots L P]: for every ring of P (normalised by ensureCorrectWindingOrder) the ring produced by
+    routeRing over its edges followed by the closing-vertex removal of cleanupNewRing ([chainOf], made of the
+    model's own functions).  Hypotheses: every chain has at least three vertices and no pixel centre is visited
+    twice by the polygon as a whole.  Then kmpDeduplicate is the identity on every chain, splitRing returns the
+    chain itself whatever the hit flags, no shell/hole pair is cancelled, and matching only attaches holes to the
+    shell or turns them into shells: snapLevel returns polygons whose rings are exactly the chains, each possibly
+    reversed ([ring_like]); first rings counter-clockwise or zero area, later rings clockwise (opposite with the
+    reverse flag, [poly_ok]); no points-and-lines polygons.  No premise about routing or kmp is left. *)
+Theorem C02_polygon_no_collapse : forall g hots P cfg L c0 cr,
+  chains g hots L P = Ok (c0 :: cr) -> Forall (fun c : ring => (3 <= length c)%nat) (c0 :: cr) ->
+  NoDup (concat (c0 :: cr)) ->
+  exists ps rs, snapLevel g hots P cfg L = Ok (Some ps) /\
+    Forall2 ring_like (c0 :: cr) rs /\ Permutation (concat ps) rs /\
+    Forall (poly_ok (if reverseWindingOrder cfg then -1 else 1)) ps.
+Proof. exact no_collapse_rings. Qed.
+Print Assumptions C02_polygon_no_collapse.
+
+(** exactly which polygons: the shell [x0] (the first chain, reversed only if it is clockwise), the holes [xs] (the other
+    chains, each reversed only if it is counter-clockwise); a hole is attached to the shell iff one of its vertices
+    is in or on the shell (ringContains), in order; the others become shells of their own, reversed *)
+Theorem C02_polygon_no_collapse_precise : forall g hots P cfg L c0 cr,
+  chains g hots L P = Ok (c0 :: cr) -> Forall (fun c : ring => (3 <= length c)%nat) (c0 :: cr) ->
+  NoDup (concat (c0 :: cr)) ->
+  exists x0 xs, ring_like c0 x0 /\ 0 <= xprod x0 /\ (0 < xprod c0 -> x0 = c0) /\ Forall2 inner_of cr xs /\
+    snapLevel g hots P cfg L = Ok (Some (flipb (reverseWindingOrder cfg) (polysOf x0 xs))).
+Proof. exact no_collapse. Qed.
+Print Assumptions C02_polygon_no_collapse_precise.
+
+(** exactly the concatenation: the routed shell is counter-clockwise, the routed holes are clockwise and each has a
+    vertex in or on the shell: ONE polygon, the shell chain first, the hole chains in order, nothing reversed *)
+Theorem C02_polygon_no_collapse_exact : forall g hots P cfg L c0 cr,
+  chains g hots L P = Ok (c0 :: cr) -> Forall (fun c : ring => (3 <= length c)%nat) (c0 :: cr) ->
+  NoDup (concat (c0 :: cr)) -> reverseWindingOrder cfg = false ->
+  0 < xprod c0 -> Forall (fun c => xprod c < 0) cr -> Forall (fun h => attached c0 h = true) cr ->
+  snapLevel g hots P cfg L = Ok (Some [c0 :: cr]).
+Proof. exact no_collapse_exact. Qed.
+Print Assumptions C02_polygon_no_collapse_exact.
+
+(** non-vacuity: a square with a square hole on the 32 x 32 pixel grid of pixel size 2, at level 3 (pixel 8): all
+    hypotheses hold and the result is the two chains, shell first.  The shell may be written clockwise. *)
+Example C02_polygon_no_collapse_example :
+  let g := mkGrid (mkExtent 0 0 64 64) 2 5 in
+  let P := [[(2,2);(40,2);(40,40);(2,40)]; [(10,10);(10,20);(20,20);(20,10)]] in
+  let hots := hotLevels g [(1,1);(20,1);(20,20);(1,20);(5,5);(5,10);(10,10);(10,5)] in
+  let c0 := [(4,4);(44,4);(44,44);(4,44)] in
+  let c1 := [(12,12);(12,20);(20,20);(20,12)] in
+  insertPolygon g P = Ok [(1,1);(20,1);(20,20);(1,20);(5,5);(5,10);(10,10);(10,5)] /\
+  chains g hots 3 P = Ok [c0; c1] /\
+  chains g hots 3 [rev [(2,2);(40,2);(40,40);(2,40)]; [(10,10);(10,20);(20,20);(20,10)]] = Ok [c0; c1] /\
+  Forall (fun c : ring => (3 <= length c)%nat) [c0; c1] /\ NoDup (concat [c0; c1]) /\
+  0 < xprod c0 /\ Forall (fun c => xprod c < 0) [c1] /\ Forall (fun h => attached c0 h = true) [c1] /\
+  snapLevel g hots P (mkConfig false false false) 3 = Ok (Some [[c0; c1]]).
+Proof.
+  cbn zeta. split; [vm_compute; reflexivity |]. split; [vm_compute; reflexivity |]. split; [vm_compute; reflexivity |].
+  split; [repeat constructor; cbn; auto with zarith |]. split; [apply nodupb_sound; vm_compute; reflexivity |].
+  split; [vm_compute; reflexivity |]. split; [repeat constructor |]. split; [repeat constructor |].
+  vm_compute. reflexivity.
+Qed.
